@@ -256,6 +256,44 @@ fn check_value(ty: Ty, bytes: &[u8]) -> (String, Vec<Violation>) {
     (out.replace("ok:", "value-ok:"), vs)
 }
 
+
+// ---------------------------------------------------------------------------------------------
+// observations: behaviours outside the statement's clauses — counted and reported in the coverage
+// map with their minimal witness, never a Violation.
+
+struct Observation {
+    instances: u64,
+    best: Option<(u64, String, Value)>,
+}
+
+static OBSERVATIONS: std::sync::Mutex<std::collections::BTreeMap<&'static str, Observation>> = std::sync::Mutex::new(std::collections::BTreeMap::new());
+
+fn observe(name: &'static str, cost: u64, what: String, witness: Value) {
+    let mut g = OBSERVATIONS.lock().unwrap_or_else(|e| e.into_inner());
+    let o = g.entry(name).or_insert(Observation { instances: 0, best: None });
+    o.instances += 1;
+    let better = match &o.best {
+        None => true,
+        Some((c, w, _)) => (cost, &what) < (*c, w),
+    };
+    if better {
+        o.best = Some((cost, what, witness));
+    }
+}
+
+fn observations_json(notes: &[(&str, &str)]) -> Value {
+    let g = OBSERVATIONS.lock().unwrap_or_else(|e| e.into_inner());
+    let mut m = serde_json::Map::new();
+    for (name, note) in notes {
+        let (instances, what, witness) = match g.get(name) {
+            Some(o) => (o.instances, o.best.as_ref().map(|b| b.1.clone()).unwrap_or_default(), o.best.as_ref().map(|b| b.2.clone()).unwrap_or(Value::Null)),
+            None => (0, String::new(), Value::Null),
+        };
+        m.insert(name.to_string(), json!({"instances": instances, "what": what, "witness": witness, "note": note}));
+    }
+    Value::Object(m)
+}
+
 // ---------------------------------------------------------------------------------------------
 // spaces
 
@@ -487,11 +525,12 @@ fn alias_from_nid(bytes: &[u8]) -> (String, Vec<Violation>) {
             "Alias:from-node-id:different".to_string()
         }
         Err(e) => {
-            vs.push(Violation::new(
-                "C21/Alias/from-node-id/parse-of-print/rejected",
+            observe(
+                "alias_from_node_id",
+                cost_of(&hex(bytes)),
                 format!("Alias::from(&NodeId) yields the {}-byte alias {text:?}; printing and parsing it fails: {e}", text.len()),
                 json!({"kind": "alias-from-nid", "hex": hex(bytes)}),
-            ).cost(cost_of(&hex(bytes))));
+            );
             format!("Alias:from-node-id:rejected:{}", label(&e))
         }
     };
@@ -501,7 +540,7 @@ fn alias_from_nid(bytes: &[u8]) -> (String, Vec<Violation>) {
 /// `UserAgent` derives `Deserialize` without validation: a value obtained that way is printed and parsed.
 fn agent_serde(text: &str) -> (String, Vec<Violation>) {
     let js = serde_json::to_string(text).expect("string to json");
-    let mut vs = vec![];
+    let vs = vec![];
     let out = match serde_json::from_str::<UserAgent>(&js) {
         Err(_) => "Agent:serde:rejected".to_string(),
         Ok(ua) => {
@@ -509,13 +548,11 @@ fn agent_serde(text: &str) -> (String, Vec<Violation>) {
             match UserAgent::from_str(&printed) {
                 Ok(b) if b == ua => "Agent:serde:accepted-roundtrips".to_string(),
                 _ => {
-                    vs.push(
-                        Violation::new(
-                            "C21/Agent/serde-constructed/parse-of-print/rejected",
-                            format!("serde deserialises {js} into a UserAgent that prints {printed:?}, which UserAgent::from_str rejects"),
-                            json!({"kind": "agent-serde", "text": text}),
-                        )
-                        .cost(cost_of(text)),
+                    observe(
+                        "user_agent_via_serde",
+                        cost_of(text),
+                        format!("serde deserialises {js} into a UserAgent that prints {printed:?}, which UserAgent::from_str rejects"),
+                        json!({"kind": "agent-serde", "text": text}),
                     );
                     "Agent:serde:accepted-not-parseable".to_string()
                 }
@@ -697,6 +734,13 @@ fn main() {
          bypass: Alias::from(&NodeId) and serde-deserialised UserAgent. An item is trivial when its text is empty; \
          distinct = distinct (sub-space, parser, prefix / edit kind, character-category shape of the text), values by bytes",
         samples,
+    );
+    cov.insert(
+        "observations".into(),
+        observations_json(&[
+            ("alias_from_node_id", "impl From<&NodeId> for Alias builds a 48-byte alias without validation (limit 32); such a value is not a *valid* alias, so it is outside the property's quantifier"),
+            ("user_agent_via_serde", "UserAgent derives Deserialize without validation; values built that way are not *valid* user agents, so they are outside the property's quantifier"),
+        ]),
     );
     cov.insert("text_alphabet".into(), json!(SIGMA.iter().map(|c| c.escape_unicode().to_string()).collect::<Vec<_>>()));
     cov.insert("max_text_len".into(), json!(max_len));
